@@ -327,10 +327,18 @@ def rule_store(R):
          "written >= len", where=sw.span)
     # the three setters pass their arguments through
     n = 0
+    widx, lidx = {}, {}
     for name in ("set_control_written", "set_retained_written", "set_release_written"):
         b = roles.method(f, OUTBOUND, name)
         cs = roles.calls_with_env(f, b, sw)
-        okc = len(cs) == 1 and peel(cs[0][1](cs[0][0].args[1])) == ("param", "written") and peel(cs[0][1](cs[0][0].args[2])) == ("param", "len")
+        # which of the setter's own parameters (by position, whatever they are called) reach set_written's `written` and `len`
+        okc = len(cs) == 1
+        if okc:
+            wt, lt = peel(cs[0][1](cs[0][0].args[1])), peel(cs[0][1](cs[0][0].args[2]))
+            pn = {b.param_name(k): k - 1 for k in range(1, b.arg_count + 1)}
+            okc = wt[0] == "param" and lt[0] == "param" and wt[1] in pn and lt[1] in pn and wt[1] != lt[1]
+            if okc:
+                widx[b.name], lidx[b.name] = pn[wt[1]], pn[lt[1]]
         n += 1
         R.ob("store/%s" % name, okc, "%s forwards the written count and the packet length unchanged" % name, where=b.span)
     cm = roles.conn_methods(f)
@@ -347,7 +355,14 @@ def rule_store(R):
             tg = f.call_targets(c)
             hit = [s_ for s_ in setters if s_.name in tg]
             if hit and len(c.args) > 2:
-                out.append((c, code.operand_term(c.args[2]), set(s_.fn_name for s_ in hit)))
+                wi = set(widx.get(s_.name) for s_ in hit)
+                li = set(lidx.get(s_.name) for s_ in hit)
+                if len(wi) != 1 or None in wi or max(wi) >= len(c.args):
+                    out.append((c, ("opaque", "setter"), set(s_.fn_name for s_ in hit)))
+                    continue
+                out.append((c, code.operand_term(c.args[next(iter(wi))]), set(s_.fn_name for s_ in hit)))
+                if len(li) == 1 and None not in li and max(li) < len(c.args):
+                    len_args.append((c, code.operand_term(c.args[next(iter(li))])))
                 continue
             if depth >= 2:
                 continue
@@ -372,6 +387,13 @@ def rule_store(R):
             r = peel(r[1])
         return (is_call(r, "write_current") or (isinstance(r, tuple) and r[0] == "call" and r[4] == IO_WRITE)) and nm == ["@Ok", "0"]
 
+    len_args = []
+    def is_count_call(r):
+        r = peel(r)
+        if isinstance(r, tuple) and r[0] == "await":
+            r = peel(r[1])
+        return is_call(r, "write_current") or (isinstance(r, tuple) and r[0] == "call" and len(r) > 4 and r[4] == IO_WRITE)
+
     sinks = written_sinks(pcode)
     reached = set()
     okp = bool(sinks)
@@ -392,6 +414,16 @@ def rule_store(R):
     okp = okp and reached == set(s_.fn_name for s_ in setters)
     R.ob("store/step-accumulates", okp,
          "perform_outbound_step records written_before + count of the write that just completed", where=pb.span)
+    # ... and the length it hands over next to it is a packet length, not a count: the value in the `len` position of the
+    # setter never derives from the transport's byte count (two `usize` arguments are easily transposed)
+    okl = True
+    for (c, t) in len_args:
+        for y in walk(t):
+            if isinstance(y, tuple) and is_count_call(y):
+                okl = False
+    R.ob("store/step-length-is-not-a-count", okl,
+         "the argument perform_outbound_step passes in the setter's `len` position is the packet's length (it does not "
+         "derive from the byte count of a write)", where=pb.span)
 
 
 def rule_ping(R):
